@@ -73,9 +73,19 @@ func TestVerifC20BMP(t *testing.T) {
 		m4, m6 := c20Model{}, c20Model{}
 		nontrivial := false
 		for i, nmsg := 0, rapid.IntRange(2, 8).Draw(t, "nmsg"); i < nmsg; i++ {
-			m := c19GenMsg(t, s, u, 6, false)
-			b := m.build(s)
-			c.Logf("msg %d: %v", i, m)
+			// RFC 7854 4.2: the A flag (legacy 2-octet AS_PATH format) belongs to the message, not to the peer
+			sm := s
+			if s.ASN4 && rapid.IntRange(0, 3).Draw(t, "legacy_aspath_format") == 0 {
+				sm.ASN4 = false
+				c.Class("a_flag_differs_from_session")
+			}
+			mp := pph
+			if !sm.ASN4 {
+				mp.Flags |= c27FlagA
+			}
+			m := c19GenMsg(t, sm, u, 6, false)
+			b := m.build(sm)
+			c.Logf("msg %d (A flag %v): %v", i, !sm.ASN4, m)
 			if len(m.Nl) > 0 {
 				m4.announce(m.Nl, s.AP4, c20Expect(m, s, m.A.NextHop[:]))
 			}
@@ -96,7 +106,7 @@ func TestVerifC20BMP(t *testing.T) {
 				(s.AP6 && ((m.Reach != nil && m.Reach.AFI == 2 && c20DistinctIDs(m.Reach.NLRI)) || (m.Unreach != nil && m.Unreach.AFI == 2 && c20DistinctIDs(m.Unreach.NLRI))))
 			pv := func() (pv interface{}) {
 				defer func() { pv = recover() }()
-				r.processMsg(c27RouteMon(pph, b))
+				r.processMsg(c27RouteMon(mp, b))
 				return nil
 			}()
 			if pv != nil {
